@@ -143,6 +143,17 @@ def rule_B1(ctx):
     ctx.ob("B1", ae, "AkaiString encodes through char_ascii_to_akai", _rk(ctx, ae, "B1") == {f"char_ascii_to_akai({ae.args.args[1].arg})"}, "", inst="AkaiString-encode")
 
 
+def rule_B1d(ctx):
+    """the decoding half of B1 (C01: every stored AKAI name decodes, so no file is dropped for its name): the character tables, the
+    fast decoder and its wiring - the encoder is not on the export path"""
+    before = len(ctx.obs)
+    rule_B1(ctx)
+    keep = [o for o in ctx.obs[before:] if o.inst.startswith(("range:", "width:", "symbol:", "disjoint:AKAI", "fast-", "decode-", "AkaiString-decode", "adapter:AkaiString._decode"))]
+    for o in keep:
+        o.rule = "B1d"
+    ctx.obs[before:] = keep
+
+
 def _symbol_map(ctx, fn, sf, df, label, maps=None):
     from .sem import canon_expr, single_defs, _Inline
     import copy
